@@ -1,11 +1,11 @@
-(* Swap symmetry of the haplotag model (property C10):
-   permuting the haplotype columns of one phase set bs of the variant table (new column j = old
-   column p[j]) changes the prepared state / the written tags exactly by  h |-> pos_in h p  for the
-   decisions whose phase set is bs, and nothing else. *)
 From Coq Require Import ZArith List Bool Arith Lia Permutation.
 From WH.Model Require Import Haplotag.
 Import ListNotations.
 Open Scope Z_scope.
+(* Swap symmetry of the haplotag model (property C10):
+   permuting the haplotype columns of one phase set bs of the variant table (new column j = old
+   column p[j]) changes the prepared state / the written tags exactly by  h |-> pos_in h p  for the
+   decisions whose phase set is bs, and nothing else. *)
 
 Definition swap_dec (p : list nat) (bs : Z) (d : decision) : decision :=
   let '(h, q, ps) := d in if ps =? bs then (pos_in h p, q, ps) else d.
@@ -267,3 +267,621 @@ Proof.
   intros p bs inf pl g Hp Hinf. rewrite swap_vec_form. unfold acc_group.
   exact (swap_acc_group_gen p bs inf pl g [] Hp Hinf (Forall_nil _)).
 Qed.
+
+(* ------------------------------------------------------------------------------------------------ *)
+(* 3. the maximum, the winner within a phase set, the winning phase set *)
+Lemma fold_max_ge_init : forall t x, x <= fold_left Z.max t x.
+Proof.
+  intros t. induction t as [|y t IH]; intros x; cbn [fold_left].
+  - lia.
+  - specialize (IH (Z.max x y)). lia.
+Qed.
+Lemma fold_max_ge_in : forall t x y, In y t -> y <= fold_left Z.max t x.
+Proof.
+  intros t. induction t as [|z t IH]; intros x y Hy; cbn [fold_left].
+  - destruct Hy.
+  - destruct Hy as [->|Hy].
+    + pose proof (fold_max_ge_init t (Z.max x y)). lia.
+    + apply IH. exact Hy.
+Qed.
+Lemma fold_max_in : forall t x, fold_left Z.max t x = x \/ In (fold_left Z.max t x) t.
+Proof.
+  intros t. induction t as [|z t IH]; intros x; cbn [fold_left].
+  - left. reflexivity.
+  - destruct (IH (Z.max x z)) as [E|Hin].
+    + rewrite E. destruct (Z.max_spec x z) as [[_ ->]|[_ ->]]; [right; left; reflexivity|left; reflexivity].
+    + right. right. exact Hin.
+Qed.
+
+Lemma maxl_ge : forall v y, In y v -> y <= maxl v.
+Proof.
+  intros [|x t] y Hy; cbn [maxl].
+  - destruct Hy.
+  - destruct Hy as [->|Hy]; [apply fold_max_ge_init|apply fold_max_ge_in; exact Hy].
+Qed.
+Lemma maxl_in : forall v, v <> [] -> In (maxl v) v.
+Proof.
+  intros [|x t] Hne; [congruence|]. cbn [maxl].
+  destruct (fold_max_in t x) as [E|Hin]; [left; symmetry; exact E|right; exact Hin].
+Qed.
+
+Lemma maxl_Permutation : forall v v', Permutation v v' -> maxl v = maxl v'.
+Proof.
+  intros v v' H. destruct v as [|x t].
+  - apply Permutation_nil in H. subst v'. reflexivity.
+  - assert (Hne' : v' <> []).
+    { intros ->. apply Permutation_sym, Permutation_nil in H. discriminate. }
+    assert (Hne : x :: t <> []) by discriminate.
+    pose proof (maxl_in _ Hne) as H1. pose proof (maxl_in _ Hne') as H2.
+    apply (Permutation_in _ H) in H1. apply (Permutation_in _ (Permutation_sym H)) in H2.
+    apply maxl_ge in H1. apply maxl_ge in H2. lia.
+Qed.
+
+Lemma maxl_permute : forall p v, Permutation p (seq 0 (length v)) -> maxl (permute 0 p v) = maxl v.
+Proof. intros p v Hp. apply maxl_Permutation. apply permute_Permutation. exact Hp. Qed.
+
+(* remove_nth (index_of m v) v removes the first occurrence of m *)
+Lemma remove_first_Permutation : forall m v, In m v ->
+  Permutation v (m :: remove_nth (index_of m v) v).
+Proof.
+  intros m v. induction v as [|x t IH]; intros Hin; cbn [index_of].
+  - destruct Hin.
+  - destruct (x =? m) eqn:E; cbn [remove_nth].
+    + apply Z.eqb_eq in E. subst x. apply Permutation_refl.
+    + destruct Hin as [->|Hin]; [rewrite Z.eqb_refl in E; discriminate|].
+      apply Permutation_trans with (x :: m :: remove_nth (index_of m t) t).
+      * apply perm_skip. exact (IH Hin).
+      * apply perm_swap.
+Qed.
+
+Lemma nth_index_of : forall m v, In m v -> nth (index_of m v) v 0 = m /\ (index_of m v < length v)%nat.
+Proof.
+  intros m v. induction v as [|x t IH]; intros Hin; cbn [index_of].
+  - destruct Hin.
+  - destruct (x =? m) eqn:E; cbn [nth length].
+    + apply Z.eqb_eq in E. split; [exact E|lia].
+    + destruct Hin as [->|Hin]; [rewrite Z.eqb_refl in E; discriminate|].
+      destruct (IH Hin) as [H1 H2]. split; [exact H1|lia].
+Qed.
+
+Lemma in_remove_nth_other : forall v h j, j <> h -> (j < length v)%nat -> In (nth j v 0) (remove_nth h v).
+Proof.
+  intros v. induction v as [|x t IH]; intros h j Hne Hj; cbn [length] in Hj.
+  - lia.
+  - destruct h as [|h]; cbn [remove_nth].
+    + destruct j as [|j]; [congruence|]. cbn [nth]. apply nth_In. lia.
+    + destruct j as [|j]; cbn [nth].
+      * left. reflexivity.
+      * right. apply IH; lia.
+Qed.
+
+Lemma in_remove_nth_sub : forall v h y, In y (remove_nth h v) -> In y v.
+Proof.
+  intros v. induction v as [|x t IH]; intros h y Hy.
+  - destruct h; destruct Hy.
+  - destruct h as [|h]; cbn [remove_nth] in Hy.
+    + right. exact Hy.
+    + destruct Hy as [->|Hy]; [left; reflexivity|right; exact (IH h y Hy)].
+Qed.
+
+Lemma pos_in_cons : forall h x t, pos_in h (x :: t) = if Nat.eqb x h then 0%nat else S (pos_in h t).
+Proof. intros h x t. reflexivity. Qed.
+
+Lemma index_of_map_pos_in : forall (f : nat -> Z) m h p,
+  (forall j, In j p -> (f j = m <-> j = h)) ->
+  index_of m (map f p) = pos_in h p.
+Proof.
+  intros f m h p. induction p as [|x t IH]; intros Hf.
+  - reflexivity.
+  - rewrite pos_in_cons. cbn [map index_of].
+    destruct (Hf x (or_introl eq_refl)) as [H1 H2].
+    destruct (Nat.eqb x h) eqn:E.
+    + apply Nat.eqb_eq in E. rewrite (H2 E), Z.eqb_refl. reflexivity.
+    + apply Nat.eqb_neq in E. destruct (f x =? m) eqn:E2.
+      * apply Z.eqb_eq in E2. elim E. exact (H1 E2).
+      * f_equal. apply IH. intros j Hj. apply Hf. right. exact Hj.
+Qed.
+
+Theorem swap_best_of : forall p v,
+  Permutation p (seq 0 (length v)) -> (2 <= length v)%nat ->
+  best_of (permute 0 p v) = option_map (fun hq => (pos_in (fst hq) p, snd hq)) (best_of v).
+Proof.
+  intros p v Hp Hlen.
+  pose proof (permute_Permutation Z 0 p v Hp) as HP.
+  assert (Hne : v <> []) by (intros ->; cbn [length] in Hlen; lia).
+  pose proof (maxl_in v Hne) as Hmin.
+  assert (Hmin' : In (maxl v) (permute 0 p v)).
+  { exact (Permutation_in _ (Permutation_sym HP) Hmin). }
+  unfold best_of. rewrite (maxl_permute p v Hp).
+  set (m := maxl v) in *.
+  assert (Hq : maxl (remove_nth (index_of m (permute 0 p v)) (permute 0 p v))
+               = maxl (remove_nth (index_of m v) v)).
+  { apply maxl_Permutation. apply (Permutation_cons_inv (a := m)).
+    apply Permutation_trans with (permute 0 p v).
+    - apply Permutation_sym. apply remove_first_Permutation. exact Hmin'.
+    - apply Permutation_trans with v; [exact HP|].
+      apply remove_first_Permutation. exact Hmin. }
+  rewrite Hq.
+  destruct (m - maxl (remove_nth (index_of m v) v) =? 0) eqn:Eq; cbn [option_map fst snd].
+  - reflexivity.
+  - apply Z.eqb_neq in Eq. f_equal. f_equal.
+    unfold permute. apply index_of_map_pos_in.
+    intros j Hj. pose proof (perm_lt p (length v) Hp j Hj) as Hjl.
+    destruct (nth_index_of m v Hmin) as [Hn Hl].
+    split.
+    + intros Hjm. destruct (Nat.eq_dec j (index_of m v)) as [E|E]; [exact E|].
+      exfalso. apply Eq.
+      pose proof (in_remove_nth_other v (index_of m v) j E Hjl) as Hin.
+      rewrite Hjm in Hin.
+      pose proof (maxl_ge _ _ Hin) as Hge.
+      assert (Hne2 : remove_nth (index_of m v) v <> []) by (intros E0; rewrite E0 in Hin; destruct Hin).
+      pose proof (maxl_in _ Hne2) as Hin2. apply in_remove_nth_sub in Hin2.
+      apply maxl_ge in Hin2. fold m in Hin2. lia.
+    + intros ->. exact Hn.
+Qed.
+
+Lemma swap_first_best_gen : forall (g : Z -> list Z -> list Z) l,
+  (forall e, In e l -> maxl (g (fst e) (snd e)) = maxl (snd e)) ->
+  first_best (mapv g l) = option_map (fun e => (fst e, g (fst e) (snd e))) (first_best l).
+Proof.
+  intros g l. induction l as [|e t IH]; intros Hm; cbn [mapv map first_best].
+  - reflexivity.
+  - fold (mapv g t). rewrite IH by (intros e' He'; apply Hm; right; exact He').
+    assert (Hin : forall b, first_best t = Some b -> In b t).
+    { clear. induction t as [|e t IH]; cbn [first_best]; intros b Hb; [discriminate|].
+      destruct (first_best t) as [b'|].
+      - destruct (maxl (snd b') >? maxl (snd e)); injection Hb as <-;
+          [right; apply IH; reflexivity|left; reflexivity].
+      - injection Hb as <-. left. reflexivity. }
+    destruct (first_best t) as [b|] eqn:Eb; cbn [option_map snd].
+    + rewrite (Hm b (or_intror (Hin b eq_refl))), (Hm e (or_introl eq_refl)).
+      destruct (maxl (snd b) >? maxl (snd e)); reflexivity.
+    + reflexivity.
+Qed.
+
+Theorem swap_first_best : forall p bs pl l,
+  Permutation p (seq 0 pl) -> Forall (fun e => length (snd e) = pl) l ->
+  first_best (map (fun e => if fst e =? bs then (fst e, permute 0 p (snd e)) else e) l)
+  = option_map (fun e => if fst e =? bs then (fst e, permute 0 p (snd e)) else e) (first_best l).
+Proof.
+  intros p bs pl l Hp Hl. rewrite swap_vec_form. rewrite swap_first_best_gen.
+  - destruct (first_best l) as [[k v]|]; cbn [option_map fst snd]; [|reflexivity].
+    unfold swap_vec. destruct (k =? bs); reflexivity.
+  - intros [k v] He. cbn [fst snd]. unfold swap_vec. destruct (k =? bs); [|reflexivity].
+    apply maxl_permute. rewrite Forall_forall in Hl. pose proof (Hl _ He) as Hk. cbn [snd] in Hk. rewrite Hk. exact Hp.
+Qed.
+
+(* ------------------------------------------------------------------------------------------------ *)
+(* 4. the decision for one group of reads *)
+Lemma phaseinfo_from_rows_gen : forall rows acc pos ph,
+  lookup pos (fold_left (fun m (r : vrow) => match r with (ps, _, Some ph) => upd ps ph m | _ => m end) rows acc)
+  = Some ph ->
+  lookup pos acc = Some ph \/ exists hom, In (pos, hom, Some ph) rows.
+Proof.
+  intros rows. induction rows as [|[[pos' hom'] [ph'|]] t IH]; intros acc pos ph H; cbn [fold_left] in H.
+  - left. exact H.
+  - destruct (IH _ _ _ H) as [H1|[hom H1]].
+    + rewrite lookup_upd in H1. destruct (pos =? pos') eqn:E.
+      * apply Z.eqb_eq in E. subst pos'. injection H1 as ->.
+        right. exists hom'. left. reflexivity.
+      * left. exact H1.
+    + right. exists hom. right. exact H1.
+  - destruct (IH _ _ _ H) as [H1|[hom H1]].
+    + left. exact H1.
+    + right. exists hom. right. exact H1.
+Qed.
+
+Lemma phaseinfo_inf_ok : forall pl rows, phases_ok pl rows -> inf_ok pl (phaseinfo rows).
+Proof.
+  intros pl rows Hok pos b ph H. unfold phaseinfo in H.
+  destruct (phaseinfo_from_rows_gen rows [] pos (b, ph) H) as [H1|[hom H1]].
+  - discriminate.
+  - exact (Hok pos hom b ph H1).
+Qed.
+
+Theorem swap_decide : forall p bs rows pl g,
+  Permutation p (seq 0 pl) -> (2 <= pl)%nat -> phases_ok pl rows ->
+  decide (phaseinfo (swap_rows p bs rows)) pl g = option_map (swap_dec p bs) (decide (phaseinfo rows) pl g).
+Proof.
+  intros p bs rows pl g Hp Hpl Hok. unfold decide.
+  rewrite swap_phaseinfo.
+  destruct (swap_acc_group p bs (phaseinfo rows) pl g Hp (phaseinfo_inf_ok pl rows Hok)) as [E Hlen].
+  rewrite E. rewrite (swap_first_best p bs pl _ Hp Hlen).
+  destruct (first_best (acc_group (phaseinfo rows) pl g)) as [[ps scores]|] eqn:Efb; cbn [option_map fst snd].
+  2:{ reflexivity. }
+  assert (Hs : length scores = pl).
+  { assert (Hin : forall l b, first_best l = Some b -> In b l).
+    { clear. induction l as [|e t IH]; cbn [first_best]; intros b Hb; [discriminate|].
+      destruct (first_best t) as [b'|].
+      - destruct (maxl (snd b') >? maxl (snd e)); injection Hb as <-;
+          [right; apply IH; reflexivity|left; reflexivity].
+      - injection Hb as <-. left. reflexivity. }
+    rewrite Forall_forall in Hlen. exact (Hlen _ (Hin _ _ Efb)). }
+  destruct (ps =? bs) eqn:Eb.
+  - rewrite swap_best_of by (rewrite Hs; assumption).
+    destruct (best_of scores) as [[h q]|]; cbn [option_map fst snd swap_dec].
+    + rewrite Eb. reflexivity.
+    + reflexivity.
+  - destruct (best_of scores) as [[h q]|]; cbn [option_map swap_dec].
+    + rewrite Eb. reflexivity.
+    + reflexivity.
+Qed.
+
+(* ------------------------------------------------------------------------------------------------ *)
+(* 5. prepare_haplotag_information *)
+Definition swap_cloud (p : list nat) (bs : Z) (c : Z * nat * Z) : Z * nat * Z :=
+  let '(s, h, ps) := c in if ps =? bs then (s, pos_in h p, ps) else c.
+
+Lemma swap_state_form : forall p bs st,
+  swap_state p bs st = mkSt (processed st) (mapv (fun _ => swap_dec p bs) (r2h st))
+                            (mapv (fun _ => map (swap_cloud p bs)) (bx2h st)).
+Proof. intros p bs st. reflexivity. Qed.
+
+Lemma fold_upd_mapv : forall (A B : Type) (f : A -> B) (d : A) (g : list read) m,
+  fold_left (fun m r => upd (r_name r) (f d) m) g (mapv (fun _ => f) m)
+  = mapv (fun _ => f) (fold_left (fun m r => upd (r_name r) d m) g m).
+Proof.
+  intros A B f d g. induction g as [|r t IH]; intros m; cbn [fold_left].
+  - reflexivity.
+  - rewrite (upd_mapv _ _ (fun _ => f)). apply IH.
+Qed.
+
+Lemma app_at_mapv : forall (A B : Type) (f : A -> B) k x m,
+  app_at k (f x) (mapv (fun _ => map f) m) = mapv (fun _ => map f) (app_at k x m).
+Proof.
+  intros A B f k x m. unfold app_at, lookup_list.
+  rewrite lookup_mapv. rewrite <- (upd_mapv _ _ (fun _ => map f)). f_equal.
+  rewrite map_app. cbn [map]. f_equal.
+  destruct (lookup k m); reflexivity.
+Qed.
+
+Lemma swap_step : forall p bs cfg rows rs st rd,
+  Permutation p (seq 0 (ploidy cfg)) -> (2 <= ploidy cfg)%nat -> phases_ok (ploidy cfg) rows ->
+  step cfg (phaseinfo (swap_rows p bs rows)) rs (swap_state p bs st) rd
+  = swap_state p bs (step cfg (phaseinfo rows) rs st rd).
+Proof.
+  intros p bs cfg rows rs st rd Hp Hpl Hok. unfold step.
+  change (processed (swap_state p bs st)) with (processed st).
+  destruct (memZ (r_name rd) (processed st)); [reflexivity|].
+  rewrite (swap_decide p bs rows (ploidy cfg) _ Hp Hpl Hok).
+  destruct (decide (phaseinfo rows) (ploidy cfg) (group_of cfg rs (r_name rd :: processed st) rd))
+    as [d|]; cbn [option_map].
+  2:{ reflexivity. }
+  rewrite !swap_state_form. cbn [processed r2h bx2h]. f_equal.
+  - apply fold_upd_mapv.
+  - destruct (linked cfg); [|reflexivity]. destruct (r_bx rd) as [b|]; [|reflexivity].
+    rewrite <- app_at_mapv. f_equal.
+    destruct d as [[h q] ps]. cbn [swap_dec swap_cloud fst snd].
+    destruct (ps =? bs); reflexivity.
+Qed.
+
+Lemma swap_prepare_sample : forall p bs cfg st s,
+  Permutation p (seq 0 (ploidy cfg)) -> (2 <= ploidy cfg)%nat -> phases_ok (ploidy cfg) (fst s) ->
+  prepare_sample cfg (swap_state p bs st) (swap_rows p bs (fst s), snd s)
+  = swap_state p bs (prepare_sample cfg st s).
+Proof.
+  intros p bs cfg st [rows rs] Hp Hpl Hok. unfold prepare_sample. cbn [fst snd] in *.
+  change (mkSt [] (r2h (swap_state p bs st)) (bx2h (swap_state p bs st)))
+    with (swap_state p bs (mkSt [] (r2h st) (bx2h st))).
+  generalize (mkSt [] (r2h st) (bx2h st)) as st0.
+  generalize rs at 2 4 as l.
+  induction l as [|rd t IH]; intros st0; cbn [fold_left].
+  - reflexivity.
+  - rewrite (swap_step p bs cfg rows rs st0 rd Hp Hpl Hok). apply IH.
+Qed.
+
+Lemma swap_prepare_gen : forall p bs cfg samples st,
+  Permutation p (seq 0 (ploidy cfg)) -> (2 <= ploidy cfg)%nat ->
+  (forall s, In s samples -> phases_ok (ploidy cfg) (fst s)) ->
+  fold_left (prepare_sample cfg) (swap_samples p bs samples) (swap_state p bs st)
+  = swap_state p bs (fold_left (prepare_sample cfg) samples st).
+Proof.
+  intros p bs cfg samples st Hp Hpl. revert st.
+  induction samples as [|s t IH]; intros st Hok; cbn [swap_samples map fold_left].
+  - reflexivity.
+  - rewrite (swap_prepare_sample p bs cfg st s Hp Hpl (Hok s (or_introl eq_refl))).
+    apply IH. intros s' Hs'. apply Hok. right. exact Hs'.
+Qed.
+
+Theorem swap_prepare : forall p bs cfg samples,
+  Permutation p (seq 0 (ploidy cfg)) -> (2 <= ploidy cfg)%nat ->
+  (forall s, In s samples -> phases_ok (ploidy cfg) (fst s)) ->
+  prepare cfg (swap_samples p bs samples) = swap_state p bs (prepare cfg samples).
+Proof.
+  intros p bs cfg samples Hp Hpl Hok. unfold prepare.
+  exact (swap_prepare_gen p bs cfg samples (mkSt [] [] []) Hp Hpl Hok).
+Qed.
+
+(* ------------------------------------------------------------------------------------------------ *)
+(* 6. the tags written *)
+Lemma find_map_fst : forall (A : Type) (P : A -> bool) (F : A -> A) l,
+  (forall c, P (F c) = P c) -> find P (map F l) = option_map F (find P l).
+Proof.
+  intros A P F l HP. induction l as [|c t IH]; cbn [map find].
+  - reflexivity.
+  - rewrite HP. destruct (P c); [reflexivity|exact IH].
+Qed.
+
+Lemma swap_tag_state : forall p bs cfg st a,
+  tag_aln cfg (swap_state p bs st) a = swap_tags p bs (tag_aln cfg st a).
+Proof.
+  intros p bs cfg st a. unfold tag_aln. rewrite swap_state_form. cbn [r2h bx2h].
+  rewrite lookup_mapv.
+  destruct (lookup (a_name a) (r2h st)) as [[[h q] ps]|]; cbn [option_map swap_dec].
+  - cbn [swap_tags]. destruct (ps =? bs); [|reflexivity].
+    replace (Z.to_nat (Z.of_nat h + 1 - 1)) with h by lia. reflexivity.
+  - destruct (linked cfg); [|reflexivity].
+    destruct (a_bx a) as [b|]; [|reflexivity].
+    unfold lookup_list. rewrite lookup_mapv.
+    destruct (lookup b (bx2h st)) as [clouds|]; cbn [option_map]; [|reflexivity].
+    rewrite find_map_fst.
+    2:{ intros [[s h] ps]. cbn [swap_cloud]. destruct (ps =? bs); reflexivity. }
+    destruct (find (fun c => close (cutoff cfg) (fst (fst c)) (a_start a)) clouds) as [[[s h] ps]|];
+      cbn [option_map swap_cloud]; [|reflexivity].
+    cbn [swap_tags]. destruct (ps =? bs); [|reflexivity].
+    replace (Z.to_nat (Z.of_nat h + 1 - 1)) with h by lia. reflexivity.
+Qed.
+
+Theorem swap_tag_aln : forall p bs cfg samples a,
+  Permutation p (seq 0 (ploidy cfg)) -> (2 <= ploidy cfg)%nat ->
+  (forall s, In s samples -> phases_ok (ploidy cfg) (fst s)) ->
+  tag_aln cfg (prepare cfg (swap_samples p bs samples)) a
+  = swap_tags p bs (tag_aln cfg (prepare cfg samples) a).
+Proof.
+  intros p bs cfg samples a Hp Hpl Hok.
+  rewrite (swap_prepare p bs cfg samples Hp Hpl Hok). apply swap_tag_state.
+Qed.
+
+Theorem swap_out_rec : forall p bs cfg samples a,
+  Permutation p (seq 0 (ploidy cfg)) -> (2 <= ploidy cfg)%nat ->
+  (forall s, In s samples -> phases_ok (ploidy cfg) (fst s)) ->
+  out_rec cfg (prepare cfg (swap_samples p bs samples)) a
+  = (fst (out_rec cfg (prepare cfg samples) a), swap_tags p bs (snd (out_rec cfg (prepare cfg samples) a))).
+Proof.
+  intros p bs cfg samples a Hp Hpl Hok. unfold out_rec. cbn [fst snd]. f_equal.
+  destruct (ignore_read cfg a); [reflexivity|].
+  apply swap_tag_aln; assumption.
+Qed.
+
+Theorem swap_out_of_plan : forall p bs cfg (pl : plan),
+  Permutation p (seq 0 (ploidy cfg)) -> (2 <= ploidy cfg)%nat ->
+  (forall x s, In x pl -> In s (c_samples (snd (fst x))) -> phases_ok (ploidy cfg) (fst s)) ->
+  out_of_plan cfg (map (fun x => (fst (fst x), swap_chrom p bs (snd (fst x)), snd x)) pl)
+  = map (fun o => (fst o, swap_tags p bs (snd o))) (out_of_plan cfg pl).
+Proof.
+  intros p bs cfg pl Hp Hpl. unfold out_of_plan.
+  induction pl as [|x t IH]; intros Hok; cbn [map flat_map].
+  - reflexivity.
+  - rewrite map_app. rewrite IH by (intros x' s Hx' Hs; apply (Hok x' s); [right; exact Hx'|exact Hs]).
+    f_equal. cbn [fst snd swap_chrom c_samples].
+    rewrite map_map. apply map_ext. intros a.
+    apply swap_out_rec; try assumption.
+    intros s Hs. apply (Hok x s); [left; reflexivity|exact Hs].
+Qed.
+
+(* ------------------------------------------------------------------------------------------------ *)
+(* 7. a phase set that occurs in one sample only *)
+Theorem swap_rows_absent : forall p bs rows,
+  (forall pos hom b ph, In (pos, hom, Some (b, ph)) rows -> b <> bs) ->
+  swap_rows p bs rows = rows.
+Proof.
+  intros p bs rows. unfold swap_rows. induction rows as [|r t IH]; intros H; cbn [map].
+  - reflexivity.
+  - rewrite IH by (intros pos hom b ph Hin; apply (H pos hom b ph); right; exact Hin).
+    f_equal. destruct r as [[pos hom] [[b ph]|]]; [|reflexivity].
+    unfold swap_phase. cbn [fst snd].
+    destruct (b =? bs) eqn:E; [|reflexivity].
+    apply Z.eqb_eq in E. elim (H pos hom b ph (or_introl eq_refl)). exact E.
+Qed.
+
+Lemma one_sample_is_swap : forall p bs (samples samples' : list sample_in),
+  length samples' = length samples ->
+  (forall i s s', nth_error samples i = Some s -> nth_error samples' i = Some s' ->
+     snd s' = snd s /\
+     (fst s' = swap_rows p bs (fst s) \/
+      (fst s' = fst s /\ forall pos hom b ph, In (pos, hom, Some (b, ph)) (fst s) -> b <> bs))) ->
+  samples' = swap_samples p bs samples.
+Proof.
+  intros p bs samples. induction samples as [|s t IH]; intros samples' Hlen H.
+  - destruct samples'; [reflexivity|discriminate].
+  - destruct samples' as [|s' t']; [discriminate|]. cbn [swap_samples map]. f_equal.
+    + destruct (H 0%nat s s' eq_refl eq_refl) as [H2 [H1|[H1 H3]]]; destruct s' as [rows' rs'];
+        cbn [fst snd] in *; subst.
+      * reflexivity.
+      * rewrite (swap_rows_absent p bs (fst s) H3). reflexivity.
+    + apply IH.
+      * cbn [length] in Hlen. lia.
+      * intros i a a' Ha Ha'. exact (H (S i) a a' Ha Ha').
+Qed.
+
+Theorem swap_one_sample : forall p bs cfg samples samples',
+  Permutation p (seq 0 (ploidy cfg)) -> (2 <= ploidy cfg)%nat ->
+  (forall s, In s samples -> phases_ok (ploidy cfg) (fst s)) ->
+  length samples' = length samples ->
+  (forall i s s', nth_error samples i = Some s -> nth_error samples' i = Some s' ->
+     snd s' = snd s /\
+     (fst s' = swap_rows p bs (fst s) \/
+      (fst s' = fst s /\ forall pos hom b ph, In (pos, hom, Some (b, ph)) (fst s) -> b <> bs))) ->
+  prepare cfg samples' = swap_state p bs (prepare cfg samples).
+Proof.
+  intros p bs cfg samples samples' Hp Hpl Hok Hlen H.
+  rewrite (one_sample_is_swap p bs samples samples' Hlen H).
+  apply swap_prepare; assumption.
+Qed.
+
+Theorem swap_one_sample_tags : forall p bs cfg samples samples' a,
+  Permutation p (seq 0 (ploidy cfg)) -> (2 <= ploidy cfg)%nat ->
+  (forall s, In s samples -> phases_ok (ploidy cfg) (fst s)) ->
+  length samples' = length samples ->
+  (forall i s s', nth_error samples i = Some s -> nth_error samples' i = Some s' ->
+     snd s' = snd s /\
+     (fst s' = swap_rows p bs (fst s) \/
+      (fst s' = fst s /\ forall pos hom b ph, In (pos, hom, Some (b, ph)) (fst s) -> b <> bs))) ->
+  out_rec cfg (prepare cfg samples') a
+  = (fst (out_rec cfg (prepare cfg samples) a), swap_tags p bs (snd (out_rec cfg (prepare cfg samples) a))).
+Proof.
+  intros p bs cfg samples samples' a Hp Hpl Hok Hlen H.
+  rewrite (one_sample_is_swap p bs samples samples' Hlen H).
+  apply swap_out_rec; assumption.
+Qed.
+
+(* ------------------------------------------------------------------------------------------------ *)
+(* 8. non-vacuity *)
+Ltac solve_phases_ok :=
+  let pos := fresh "pos" in let hom := fresh "hom" in let b := fresh "b" in let ph := fresh "ph" in
+  let Hin := fresh "Hin" in
+  intros pos hom b ph Hin; cbn [In fst snd] in Hin;
+  repeat (destruct Hin as [Hin|Hin]; [inversion Hin; reflexivity|]); destruct Hin.
+
+(* diploid: sample 0 has the phase sets 100 and 200, sample 1 only the phase set 300 *)
+Definition ex_cfg2 : config := mkCfg 2 true 50000 false.
+Definition ex_rows2a : list vrow :=
+  [(10, false, Some (100, [0; 1])); (20, false, Some (100, [1; 0])); (25, true, None);
+   (30, false, Some (200, [0; 1])); (40, false, Some (200, [1; 0]))].
+Definition ex_reads2a : list read :=
+  [mkRead 1 5 None [(10, 0, 30); (20, 1, 20)];
+   mkRead 2 25 None [(30, 1, 10); (40, 0, 10)];
+   mkRead 3 8 (Some 7) [(10, 1, 15)]].
+Definition ex_rows2b : list vrow := [(10, false, Some (300, [1; 0]))].
+Definition ex_reads2b : list read := [mkRead 5 6 None [(10, 1, 9)]].
+Definition ex_samples2 : list sample_in := [(ex_rows2a, ex_reads2a); (ex_rows2b, ex_reads2b)].
+Definition ex_alns2 : list aln :=
+  [mkAln 101 1 5 60 false false false None no_tags;
+   mkAln 102 2 25 80 false false false None no_tags;
+   mkAln 103 3 8 50 false false false (Some 7) no_tags;
+   mkAln 104 4 100 150 false false false (Some 7) no_tags;   (* tagged through the read cloud of BX 7 *)
+   mkAln 105 5 6 40 false false false None no_tags;
+   mkAln 106 6 6 40 false false false None no_tags].
+Definition ex_plan2 : plan := [(0, mkChrom ex_samples2 ex_alns2, ex_alns2)].
+
+Example ex_perm2 : Permutation [1; 0]%nat (seq 0 (ploidy ex_cfg2)).
+Proof. apply perm_swap. Qed.
+Example ex_phases2 : forall s, In s ex_samples2 -> phases_ok (ploidy ex_cfg2) (fst s).
+Proof.
+  intros s [<-|[<-|[]]]; cbn [fst ex_cfg2 ploidy]; unfold ex_rows2a, ex_rows2b; solve_phases_ok.
+Qed.
+
+(* before: read 1 -> HP 1 / PS 100, read 2 -> HP 2 / PS 200, read 3 and the cloud hit -> HP 2 / PS 100 *)
+Example ex_out2 :
+  out_of_plan ex_cfg2 ex_plan2 =
+  [(101, (Some 1, Some 100, Some 50)); (102, (Some 2, Some 200, Some 20));
+   (103, (Some 2, Some 100, Some 15)); (104, (Some 2, Some 100, None));
+   (105, (Some 1, Some 300, Some 9)); (106, no_tags)].
+Proof. vm_compute. reflexivity. Qed.
+(* after exchanging the two columns of phase set 100: HP flips 1 <-> 2 exactly for PS 100 *)
+Example ex_out2_swapped :
+  out_of_plan ex_cfg2 (map (fun x => (fst (fst x), swap_chrom [1; 0]%nat 100 (snd (fst x)), snd x)) ex_plan2) =
+  [(101, (Some 2, Some 100, Some 50)); (102, (Some 2, Some 200, Some 20));
+   (103, (Some 1, Some 100, Some 15)); (104, (Some 1, Some 100, None));
+   (105, (Some 1, Some 300, Some 9)); (106, no_tags)].
+Proof. vm_compute. reflexivity. Qed.
+Example ex_out2_thm :
+  out_of_plan ex_cfg2 (map (fun x => (fst (fst x), swap_chrom [1; 0]%nat 100 (snd (fst x)), snd x)) ex_plan2)
+  = map (fun o => (fst o, swap_tags [1; 0]%nat 100 (snd o))) (out_of_plan ex_cfg2 ex_plan2).
+Proof.
+  apply swap_out_of_plan.
+  - exact ex_perm2.
+  - cbn [ex_cfg2 ploidy]. lia.
+  - intros x s [<-|[]] Hs. exact (ex_phases2 s Hs).
+Qed.
+
+(* only sample 0 is permuted; phase set 100 does not occur in sample 1 *)
+Example ex_one_sample2 :
+  prepare ex_cfg2 [(swap_rows [1; 0]%nat 100 ex_rows2a, ex_reads2a); (ex_rows2b, ex_reads2b)]
+  = swap_state [1; 0]%nat 100 (prepare ex_cfg2 ex_samples2).
+Proof.
+  apply swap_one_sample.
+  - exact ex_perm2.
+  - cbn [ex_cfg2 ploidy]. lia.
+  - exact ex_phases2.
+  - reflexivity.
+  - intros [|[|i]] s s' Hs Hs'; cbn [nth_error ex_samples2] in Hs, Hs'.
+    + injection Hs as <-. injection Hs' as <-. split; [reflexivity|left; reflexivity].
+    + injection Hs as <-. injection Hs' as <-. split; [reflexivity|right]. split; [reflexivity|].
+      intros pos hom b ph [Hin|[]]. inversion Hin. discriminate.
+    + destruct i; discriminate.
+Qed.
+Example ex_state2 :
+  prepare ex_cfg2 ex_samples2 =
+  mkSt [5] [(1, (0%nat, 50, 100)); (2, (1%nat, 20, 200)); (3, (1%nat, 15, 100)); (5, (0%nat, 9, 300))]
+       [(7, [(8, 1%nat, 100)])]
+  /\ prepare ex_cfg2 (swap_samples [1; 0]%nat 100 ex_samples2) =
+  mkSt [5] [(1, (1%nat, 50, 100)); (2, (1%nat, 20, 200)); (3, (0%nat, 15, 100)); (5, (0%nat, 9, 300))]
+       [(7, [(8, 0%nat, 100)])].
+Proof. split; vm_compute; reflexivity. Qed.
+
+(* triploid, p = [2;0;1]: new columns = old columns 2, 0, 1; the old haplotype 1 is the new haplotype 2 *)
+Definition ex_cfg3 : config := mkCfg 3 false 50000 false.
+Definition ex_rows3 : list vrow :=
+  [(10, false, Some (100, [0; 1; 1])); (20, false, Some (100, [1; 0; 1])); (30, false, Some (200, [1; 0; 0]))].
+Definition ex_reads3 : list read :=
+  [mkRead 1 5 None [(10, 1, 30); (20, 0, 20)]; mkRead 2 25 None [(30, 1, 10)]].
+Definition ex_samples3 : list sample_in := [(ex_rows3, ex_reads3)].
+Definition ex_alns3 : list aln :=
+  [mkAln 101 1 5 60 false false false None no_tags; mkAln 102 2 25 80 false false false None no_tags].
+Definition ex_plan3 : plan := [(0, mkChrom ex_samples3 ex_alns3, ex_alns3)].
+
+Example ex_perm3 : Permutation [2; 0; 1]%nat (seq 0 (ploidy ex_cfg3)).
+Proof.
+  cbn [ex_cfg3 ploidy seq]. apply Permutation_trans with [0; 2; 1]%nat.
+  - apply perm_swap.
+  - apply perm_skip. apply perm_swap.
+Qed.
+Example ex_phases3 : forall s, In s ex_samples3 -> phases_ok (ploidy ex_cfg3) (fst s).
+Proof.
+  intros s [<-|[]]; cbn [fst ex_cfg3 ploidy]; unfold ex_rows3; solve_phases_ok.
+Qed.
+Example ex_rows3_swapped :
+  swap_rows [2; 0; 1]%nat 100 ex_rows3 =
+  [(10, false, Some (100, [1; 0; 1])); (20, false, Some (100, [1; 1; 0])); (30, false, Some (200, [1; 0; 0]))].
+Proof. vm_compute. reflexivity. Qed.
+Example ex_out3 :
+  out_of_plan ex_cfg3 ex_plan3 = [(101, (Some 2, Some 100, Some 20)); (102, (Some 1, Some 200, Some 10))]
+  /\ out_of_plan ex_cfg3 (map (fun x => (fst (fst x), swap_chrom [2; 0; 1]%nat 100 (snd (fst x)), snd x)) ex_plan3)
+     = [(101, (Some 3, Some 100, Some 20)); (102, (Some 1, Some 200, Some 10))].
+Proof. split; vm_compute; reflexivity. Qed.
+Example ex_out3_thm :
+  out_of_plan ex_cfg3 (map (fun x => (fst (fst x), swap_chrom [2; 0; 1]%nat 100 (snd (fst x)), snd x)) ex_plan3)
+  = map (fun o => (fst o, swap_tags [2; 0; 1]%nat 100 (snd o))) (out_of_plan ex_cfg3 ex_plan3).
+Proof.
+  apply swap_out_of_plan.
+  - exact ex_perm3.
+  - cbn [ex_cfg3 ploidy]. lia.
+  - intros x s [<-|[]] Hs. exact (ex_phases3 s Hs).
+Qed.
+
+(* hypotheses of the component theorems *)
+Example ex_best_of3 :
+  Permutation [2; 0; 1]%nat (seq 0 (length [5; 9; 7])) /\ (2 <= length [5; 9; 7])%nat
+  /\ best_of [5; 9; 7] = Some (1%nat, 2) /\ best_of (permute 0 [2; 0; 1]%nat [5; 9; 7]) = Some (2%nat, 2).
+Proof.
+  split; [exact ex_perm3|]. split; [cbn [length]; lia|]. split; vm_compute; reflexivity.
+Qed.
+Example ex_acc_group3 :
+  (forall pos b ph, lookup pos (phaseinfo ex_rows3) = Some (b, ph) -> length ph = 3%nat)
+  /\ acc_group (phaseinfo ex_rows3) 3 ex_reads3 = [(100, [0; 50; 30]); (200, [10; 0; 0])]
+  /\ acc_group (phaseinfo (swap_rows [2; 0; 1]%nat 100 ex_rows3)) 3 ex_reads3 = [(100, [30; 0; 50]); (200, [10; 0; 0])].
+Proof.
+  split.
+  - apply (phaseinfo_inf_ok 3 ex_rows3). unfold ex_rows3. solve_phases_ok.
+  - split; vm_compute; reflexivity.
+Qed.
+Example ex_rows_absent :
+  (forall pos hom b ph, In (pos, hom, Some (b, ph)) ex_rows2b -> b <> 100)
+  /\ swap_rows [1; 0]%nat 100 ex_rows2b = ex_rows2b.
+Proof.
+  split; [|reflexivity]. intros pos hom b ph [Hin|[]]. inversion Hin. discriminate.
+Qed.
+
+Print Assumptions swap_phaseinfo.
+Print Assumptions swap_acc_group.
+Print Assumptions swap_best_of.
+Print Assumptions swap_first_best.
+Print Assumptions swap_decide.
+Print Assumptions swap_prepare.
+Print Assumptions swap_tag_aln.
+Print Assumptions swap_out_rec.
+Print Assumptions swap_out_of_plan.
+Print Assumptions swap_rows_absent.
+Print Assumptions swap_one_sample.
+Print Assumptions swap_one_sample_tags.
